@@ -1274,6 +1274,11 @@ class tensor:
         if order.size == 0:
             return self.copy()
 
+        # Check that the order is a permutation of the modes (numpy would also accept
+        # negative axes)
+        if tuple(sorted(order.tolist())) != tuple(range(self.ndims)):
+            assert False, "Invalid permutation order"
+
         # Check for special case of the identity order, has no effect
         if np.array_equal(order, np.arange(self.ndims)):
             return self.copy()
